@@ -60,7 +60,7 @@ func genCase(r *rand.Rand) Case {
 		cs.Ops = append(cs.Ops, o)
 	}
 	ck := ckinds[r.Intn(len(ckinds))]
-	cs.Cons = Consumer{Kind: ck, PauseAt: -1}
+	cs.Cons = Consumer{Kind: ck, PauseAt: -1, Lazy: r.Intn(2) == 0}
 	switch ck {
 	case "absent":
 		cs.Cons.StartAt = n
